@@ -681,6 +681,11 @@ func registerReflect(p *Program) {
 			if !ok {
 				unsupported("MapIndex on symbolic object with non-concrete key")
 			}
+			if ov := m.Overlay(n); ov != nil {
+				if v, ok := ov.Vals[ks]; ok {
+					return mkRV(&RV{T: anyT, V: v})
+				}
+			}
 			i := n.KeyIndex(ks)
 			if i < 0 {
 				return mkRV(nil)
@@ -739,10 +744,31 @@ func registerReflect(p *Program) {
 			}
 			order = m.orderKeys(order)
 			kt := m.nodeKeyType(n)
+			ov := m.Overlay(n)
 			for _, iv := range order {
 				i := int(iv.(int64))
 				keys = append(keys, mkRV(&RV{T: kt, V: n.Tm.Keys[i]}))
+				if ov != nil {
+					if v, ok := ov.Vals[n.Tm.Keys[i]]; ok {
+						vals = append(vals, mkRV(&RV{T: anyT, V: v}))
+						continue
+					}
+				}
 				vals = append(vals, mkRV(m.childRV(n, n.Val(i))))
+			}
+			if ov != nil {
+				for _, k := range ov.Keys {
+					already := false
+					for _, iv := range order {
+						if n.Tm.Keys[int(iv.(int64))] == k {
+							already = true
+						}
+					}
+					if !already {
+						keys = append(keys, mkRV(&RV{T: kt, V: k}))
+						vals = append(vals, mkRV(&RV{T: anyT, V: ov.Vals[k]}))
+					}
+				}
 			}
 			return
 		}
@@ -994,6 +1020,30 @@ func (m *Machine) isZero(t types.Type, v Value) Value {
 	}
 	unsupported("IsZero of %T", v)
 	return nil
+}
+
+// nodeOverlay records map entries written into a symbolic object on the current path
+// (reflect.Value.SetMapIndex); reads consult it before the template.
+type nodeOverlay struct {
+	Keys []string
+	Vals map[string]Value // interface values (element type any)
+}
+
+type overlayKey struct{ n *Node }
+
+// Overlay returns the entries written into node n on this path (nil if none).
+func (m *Machine) Overlay(n *Node) *nodeOverlay {
+	ov, _ := m.Scratch[overlayKey{n}].(*nodeOverlay)
+	return ov
+}
+
+func (m *Machine) overlayFor(n *Node) *nodeOverlay {
+	if ov := m.Overlay(n); ov != nil {
+		return ov
+	}
+	ov := &nodeOverlay{Vals: map[string]Value{}}
+	m.Scratch[overlayKey{n}] = ov
+	return ov
 }
 
 // NodeInner is the payload of an interface that holds a node's value without its pointer layers.
